@@ -20,12 +20,6 @@
 (* tau = the requested solver tolerance in these units (given per trace),    *)
 (* tauEq = 2 units for "identical".  A step on which the solver raised is    *)
 (* counted and skipped.  The first failing clause is reported.               *)
-(* spur (per trace) is 0 except for Seeger-Beste with K_p < 1.002, where      *)
-(* eq. 2.8-42 has a second root just above the load in which the iteration    *)
-(* ends (known finding): the bound "stress <= load" and the comparisons that  *)
-(* depend on which root was hit are widened by exactly that distance, and     *)
-(* the residual clauses are skipped (between two roots that close the         *)
-(* "equivalent stress error" f/f' means nothing).                             *)
 (***************************************************************************)
 EXTENDS Integers, Sequences, TLC, Json, IOUtils, TLCExt
 Traces == JsonDeserialize(IOEnv.TRACE_FILE).traces
@@ -38,23 +32,23 @@ Within(x, y, t) == x - y <= t /\ y - x <= t
 StepClause(t, s) ==
   IF s.raised THEN "ok"
   ELSE IF s.lgS < s.lgL - t.lgKp - t.tau THEN "stress_below_load_over_Kp"
-  ELSE IF s.lgS > s.lgL + t.tau + t.spur THEN "stress_above_load"       \* spur: 0, except Seeger-Beste with K_p < 1.002 (second root of eq. 2.8-42, known finding)
-  ELSE IF t.spur = 0 /\ t.bresP > ResMax THEN "long_vector_stress_is_not_a_root"
-  ELSE IF t.spur = 0 /\ t.bresS > ResMax THEN "long_vector_stress_range_is_not_a_root"
+  ELSE IF s.lgS > s.lgL + t.tau THEN "stress_above_load"
+  ELSE IF t.bresP > ResMax THEN "long_vector_stress_is_not_a_root"
+  ELSE IF t.bresS > ResMax THEN "long_vector_stress_range_is_not_a_root"
   ELSE IF ~s.signs_ok THEN "sign_of_stress_differs_from_sign_of_load"
   ELSE IF ~Within(s.lgSneg, s.lgS, TauEq) THEN "not_odd_in_the_load"
-  ELSE IF ~Within(s.lgD, s.lgS + Two, t.tau + t.spur) THEN "stress_range_is_not_the_Masing_doubled_primary_stress"
-  ELSE IF t.spur = 0 /\ s.resP > ResMax THEN "primary_stress_is_not_a_root_of_the_defining_equation"
-  ELSE IF t.spur = 0 /\ s.resS > ResMax THEN "stress_range_is_not_a_root_of_the_defining_equation"
+  ELSE IF ~Within(s.lgD, s.lgS + Two, t.tau) THEN "stress_range_is_not_the_Masing_doubled_primary_stress"
+  ELSE IF s.resP > ResMax THEN "primary_stress_is_not_a_root_of_the_defining_equation"
+  ELSE IF s.resS > ResMax THEN "stress_range_is_not_a_root_of_the_defining_equation"
   ELSE IF ~Within(s.lgEps, s.lgEpsRO, TauEq) THEN "strain_is_not_the_Ramberg_Osgood_strain_of_the_stress"
   ELSE IF ~Within(s.lgDEps, s.lgDEpsRO, TauEq) THEN "strain_range_is_not_the_doubled_Ramberg_Osgood_curve"
-  ELSE IF s.lgLb # 0 /\ ~Within(s.lgLb, s.lgL, t.tau + 2 * t.spur) THEN "load_of_stress_is_not_the_load"
-  ELSE IF s.lgLbs # 0 /\ ~Within(s.lgLbs, s.lgL + Two, t.tau + 2 * t.spur) THEN "load_range_of_stress_range_is_not_the_load_range"
-  ELSE IF s.lgLbneg # 0 /\ ~Within(s.lgLbneg, s.lgL, t.tau + 2 * t.spur) THEN "load_of_the_mirrored_stress_is_not_the_mirrored_load"
+  ELSE IF s.lgLb # 0 /\ ~Within(s.lgLb, s.lgL, t.tau) THEN "load_of_stress_is_not_the_load"
+  ELSE IF s.lgLbs # 0 /\ ~Within(s.lgLbs, s.lgL + Two, t.tau) THEN "load_range_of_stress_range_is_not_the_load_range"
+  ELSE IF s.lgLbneg # 0 /\ ~Within(s.lgLbneg, s.lgL, t.tau) THEN "load_of_the_mirrored_stress_is_not_the_mirrored_load"
   ELSE IF s.lgLbArr # 0 /\ ~Within(s.lgLbArr, s.lgL, t.tau) THEN "load_of_stress_given_as_array_is_not_the_load"
   ELSE IF s.lgLbsArr # 0 /\ ~Within(s.lgLbsArr, s.lgL + Two, t.tau) THEN "load_range_of_stress_range_given_as_array_is_not_the_load_range"
-  ELSE IF \E i \in 1..Len(s.forms) : ~Within(s.forms[i], s.lgS, t.tau + t.spur) THEN "scalar_array_and_Series_inputs_differ"
-  ELSE IF \E i \in 1..Len(s.formsD) : ~Within(s.formsD[i], s.lgD, t.tau + t.spur) THEN "secondary_branch_container_forms_differ"
+  ELSE IF \E i \in 1..Len(s.forms) : ~Within(s.forms[i], s.lgS, t.tau) THEN "scalar_array_and_Series_inputs_differ"
+  ELSE IF \E i \in 1..Len(s.formsD) : ~Within(s.formsD[i], s.lgD, t.tau) THEN "secondary_branch_container_forms_differ"
   ELSE "ok"
 (* strictly increasing: compared with the last answered step of the walk *)
 Order(p, s) == IF s.raised \/ p = 0 THEN "ok"
